@@ -30,11 +30,14 @@ static void emitIds(ISeq<Is...>) {
 static void emitCfg() {
 	g_rec.s("{\"e\":\"cfg\",");
 	g_rec.kv("N", VH_N); g_rec.kv("L", VH_L);
+	// requested configuration (what the specification is instantiated with) and what the library actually instantiated
 #if VH_PLANS
-	g_rec.kv("cap", FSM::Instance::TASK_CAPACITY);
+	g_rec.kv("cap", VH_CAP ? VH_CAP : VH_N);
+	g_rec.kv("capact", FSM::Instance::TASK_CAPACITY);
 #else
-	g_rec.kv("cap", 0);
+	g_rec.kv("cap", 0); g_rec.kv("capact", 0);
 #endif
+	g_rec.kv("Lact", FSM::SUBSTITUTION_LIMIT);
 	g_rec.kv("head", VH_HEAD); g_rec.kv("manual", VH_MANUAL); g_rec.kv("pay", VH_PAY); g_rec.kv("ctx", VH_CTX);
 	g_rec.kv("plans", VH_PLANS); g_rec.kv("serial", VH_SERIAL); g_rec.kv("hist", VH_HISTORY); g_rec.kv("log", VH_LOG); g_rec.kv("verbose", VH_VERBOSE);
 #if VH_SERIAL
